@@ -55,6 +55,8 @@ type run struct {
 	clientDelay  map[string]time.Duration
 	cat          []*catOp
 	recoverIDs   map[string]uint64
+	metaBaseline uint64
+	restoreWins  map[string][][2]uint64
 	backups      map[int]*backupRec
 	tmpDirs      []string
 	leaseTasks   map[string]*leaseTask
@@ -388,6 +390,8 @@ func (r *run) execStep(st *Step) {
 		r.execRaw(st)
 	case "ccreate", "cdelete", "clist":
 		r.execCat(st)
+	case "poll":
+		r.execPoll(st)
 	case "backup":
 		r.execBackup(st)
 	case "restore":
